@@ -69,6 +69,7 @@ def run(tier, seed):
             kw = dict(samples=nsamp, dt=20.0, bounds=[-bound, bound], max_steps=600, tracemanager=TraceManager())
             if shared_zl is not None: kw["zeta_list"] = shared_zl       # one list object handed to every member and to every run
             if cls == "es": kw.update(spawn_stack=[3, 2], quadrature="gl", mcsamples=2); kw["samples"] = 1
+            if shared_zl is None and (it // 5) % 2 == 1: kw["seed"] = 4711          # a seed handed to the batch itself: members still draw from distinct streams
             b = BatchedTraj(M[mname](), gen(), C, **kw)
             fp0 = global_rng_fingerprint()
             r = b.compute()
@@ -266,6 +267,23 @@ def run(tier, seed):
         if cls != "afssh" and not snaps_equal(trace_dump(ref_c.tracer), trace_dump(c.tracer)):
             bad.append(dict(failed="a clone taken at any step evolves exactly as the original does from that step (continued clone differs from the uninterrupted run with the same seed)", case=info))
         res.count("clone/" + cls); res.case(("clone", cls, mname, nst), True, info)
+    for it in range(3 if tier == "quick" else 12):
+        cls = ["md", "fssh", "ehrenfest"][it % 3]
+        from mudslide.models import HarmonicModel as _HMr
+        mkm = (lambda: _HMr([0.0], 0.0, [[0.02]], [2000.0])) if cls == "md" else (lambda: M["simple"]())
+        kk = rng.randint(3, 12); sdr = rng.randrange(2 ** 31)
+        mkw = dict(dt=5.0) if cls == "md" else dict(dt=10.0, seed_sequence=sdr, zeta_list=[2.0] * 60)
+        part = make(cls, mkm(), [0.3] if cls == "md" else [-3.0], [2.0] if cls == "md" else [11.0], rng, max_steps=kk, **mkw).simulate()
+        Cr = dict(md=mudslide.AdiabaticMD, fssh=mudslide.TrajectorySH, ehrenfest=mudslide.Ehrenfest)[cls]
+        rkw = dict(max_steps=kk + 8) if cls == "md" else dict(max_steps=kk + 8, seed_sequence=sdr, zeta_list=[2.0] * 60)
+        try:
+            r_ = Cr.restart(mkm(), part, **rkw); c_ = r_.clone()
+            r_.simulate(); c_.simulate()
+        except Exception as ex:
+            bad.append(dict(failed="clone() of a restarted trajectory raised %s: %s" % (type(ex).__name__, ex), case=dict(cls=cls))); continue
+        res.count("clone-of-restarted/" + cls); res.case(("clone-restart", cls, kk), True)
+        if not snaps_equal(trace_dump(r_.tracer), trace_dump(c_.tracer)):
+            bad.append(dict(failed="a clone taken at any step evolves exactly as the original does from that step (a trajectory built by restart() and cloned before it is resumed: original logs %d snapshots, clone %d)" % (len(r_.tracer), len(c_.tracer)), case=dict(cls=cls, restarted_after=kk)))
     f1, e1 = run_case_check("C12k", PRELUDE, "list nat * list nat * list (list (list nat))", "chk12k", kc, per_file=400)
     f2, e2 = run_case_check("C12d", PRELUDE, "list float * list float * nat * list float", "chk12d", dc, per_file=400)
     for e in e1 + e2:
